@@ -506,6 +506,11 @@ func (p *blockParser) parseFencedCodeBlock(indent int, opener, info string) {
 				p.tree.closeBlocks(i, lineNo, p.codec)
 				return
 			}
+			if matchedContainers < len(p.tree.containers) {
+				// A blank line shorter than the indentation of a list item
+				// still belongs to the item, which consumes all of it.
+				line = ""
+			}
 		} else if matchedContainers < len(p.tree.containers) {
 			p.lines.backup()
 			doCodeBlock()
